@@ -106,7 +106,7 @@ def mutate(rng, s):
 def run_C16(chk):
     chk.prepare_model('Cctz.Properties.C16', THEOREMS['C16'])
     exe = chk.harness('san')
-    scale = chk.tier if not chk.broken else 'thorough'
+    scale = chk.tier if not (chk.broken or chk.degraded) else 'thorough'
     if exe is None or not getattr(chk, 'driver_ok', False):
         return chk.finish()
     rng = chk.rng
